@@ -10,6 +10,7 @@ it.  Instantiated for the parameters re-extracted from the source on this run (`
 * `extend_match_reads_in_bounds` – `get_unchecked` slices and the 8-byte `read_unaligned` words.
 * `fast_reject_reads_in_bounds` – the two u16 reads at `min(pos, buf_size - 2)`; `buf_limit_is_largest_safe`:
   `buf_size - 2` is the largest clamp for which that holds (with `- 1` byte `buf_size` is read).
+* `match_len_fast_reject_reads_in_bounds` – the function as it is called (reject + extension from `read_pos + 2`).
 * `asm_direct_bits_reads_in_bounds` – the clamped `movzx` / `ldrb` loads of both assembly variants, for every
   decoder state, also when the decoder has run past the end of the chunk buffer.
 * `simd_normalize_in_bounds` / `aligned_allocation_sound` – vector loads/stores cover only whole vectors inside
@@ -30,6 +31,20 @@ theorem extend_match_reads_in_bounds (buf : List Nat) (readPos curLen dist limit
 theorem fast_reject_reads_in_bounds (buf : List Nat) (h2 : 2 ≤ buf.length) (readPos matchDist : Nat) :
     ∀ i ∈ (fastRejectOpt TwinGen.params buf readPos matchDist).2, i < buf.length :=
   (ok_fastReject TwinGen.params Props.C14.generated_params_ok.1 buf h2 readPos matchDist).1
+
+/-- the whole `get_match_len_fast_reject` (clamped u16 reads, then the optimized `extend_match` from
+    `read_pos + 2`), for ALL arguments — also `len_limit < 2`, where only the clamp to the physical buffer bounds
+    the extension (the real function was observed to extend to the end of the buffer there) -/
+theorem match_len_fast_reject_reads_in_bounds (buf : List Nat) (h2 : 2 ≤ buf.length)
+    (readPos dist lenLimit : Nat) :
+    ∀ i ∈ (matchLenFastRejectOptT TwinGen.params buf readPos dist lenLimit).2, i < buf.length := by
+  have h := Props.C14.generated_params_ok.1
+  exact matchLenFastRejectOptT_inBounds TwinGen.params (by rw [h.2.2.1, h.2.2.2.1]; decide) buf
+    (by rw [h.2.2.1]; exact h2) readPos dist lenLimit
+
+/-- non-vacuity: `len_limit = 1` on a constant buffer reads up to the last byte and no further -/
+example : (matchLenFastRejectOptT TwinGen.params [7, 7, 7, 7, 7, 7] 1 0 1).2 = [1, 2, 0, 1, 3, 2, 4, 3, 5, 4] := by
+  decide
 
 theorem buf_limit_is_largest_safe (bufSize lim : Nat) :
     (∀ i, min i lim + 2 ≤ bufSize) ↔ lim + 2 ≤ bufSize :=
